@@ -555,7 +555,7 @@ package command
 //@                          when o.excludeIPs != nil && o.liveTimeout > 0 && ret == m -> exit
 //@ func (*arpCmdOpts).getLogger
 //@   sig o
-//@   props C14 C19
+//@   props C14 C19 C03 C06 C08 C09 C10 C11 C12 C13 C16 C20
 //@   opaque (*packetScanCmdOpts).getLogger, log.NewUniqueLogger
 //@   entry row fail:   [call getLogger(_, "arp", _) as (lg, e)] when e != nil && ret1 == e -> exit
 //@   entry row plain:  [call getLogger(_, "arp", _) as (lg, e)] when e == nil && o.liveTimeout <= 0 && ret0 == lg && ret1 == nil -> exit
@@ -781,13 +781,13 @@ package command
 // loggers: flush option first; the JSON option iff --json; writer and name are the arguments
 //@ func (*packetScanCmdOpts).getLogger
 //@   sig o, name, w
-//@   props C14
+//@   props C14 C03 C06 C08 C09 C10 C11 C12 C13 C16 C19 C20
 //@   opaque log.FlushInterval, log.JSON, log.NewLogger
 //@   entry row plain: [call log.FlushInterval(_) as (fo) ; call log.NewLogger(w, name, bind_os) as (l, e)] when !o.json && len(os) == 1 && os[0] == fo && ret0 == l && ret1 == e -> exit
 //@   entry row json:  [call log.FlushInterval(_) as (fo) ; call log.JSON() as (jo) ; call log.NewLogger(w, name, bind_os) as (l, e)] when o.json && len(os) == 2 && os[0] == fo && os[1] == jo && ret0 == l && ret1 == e -> exit
 //@ func (*genericScanCmdOpts).getLogger
 //@   sig o, name, w
-//@   props C14 C08
+//@   props C14 C08 C03 C06 C09 C10 C11 C12 C13 C16 C19 C20
 //@   opaque log.FlushInterval, log.JSON, log.NewLogger
 //@   entry row plain: [call log.FlushInterval(_) as (fo) ; call log.NewLogger(w, name, bind_os) as (l, e)] when !o.json && len(os) == 1 && os[0] == fo && ret0 == l && ret1 == e -> exit
 //@   entry row json:  [call log.FlushInterval(_) as (fo) ; call log.JSON() as (jo) ; call log.NewLogger(w, name, bind_os) as (l, e)] when o.json && len(os) == 2 && os[0] == fo && os[1] == jo && ret0 == l && ret1 == e -> exit
